@@ -39,8 +39,15 @@ Proof. apply name_eqb_eq; reflexivity. Qed.
 Lemma name_eqb_neq a b : name_eqb a b = false <-> a <> b.
 Proof. rewrite <- name_eqb_eq. destruct (name_eqb a b); split; congruence. Qed.
 
-Lemma mtype_eqb_eq a b : mtype_eqb a b = true <-> a = b.
+Lemma ktype_eqb_eq a b : ktype_eqb a b = true <-> a = b.
 Proof. destruct a, b; simpl; split; congruence. Qed.
+
+Lemma mtype_eqb_eq a b : mtype_eqb a b = true <-> a = b.
+Proof.
+  destruct a as [x|x], b as [y|y]; simpl; try (split; congruence).
+  - rewrite ktype_eqb_eq. split; congruence.
+  - rewrite N.eqb_eq. split; congruence.
+Qed.
 
 (* ---------------------------------------------------------------- ownership *)
 Lemma primary_spec own n c : primary own n = Some c <-> primary_owner own n c.
@@ -104,10 +111,10 @@ Proof.
 Qed.
 
 (* ---------------------------------------------------------------- one rule *)
-Lemma opt_type_ok_spec f t : opt_type_ok f t = true <-> (forall x, f = Some x -> t = x).
+Lemma opt_type_ok_spec f t : opt_type_ok f t = true <-> (forall x, f = Some x -> t = TKnown x).
 Proof.
-  destruct f as [x|]; simpl.
-  - rewrite mtype_eqb_eq. split; [intros -> y H; inversion H; auto | intros H; symmetry; apply H; auto].
+  destruct f as [x|]; unfold opt_type_ok.
+  - rewrite mtype_eqb_eq. split; [intros <- y H; inversion H; auto | intros H; symmetry; apply H; auto].
   - split; [discriminate | auto].
 Qed.
 
@@ -226,21 +233,119 @@ Proof.
   - apply IH.
 Qed.
 
+(* several passes sharing the stamp: a recipient is listed once if any of the pools wants it *)
+Lemma count_passes own ev pools from addr m x : forall seen,
+  count_occ N.eq_dec (passes own ev pools from addr m seen) x =
+  if negb (memN x seen) && existsb (fun p => wantsb own ev p x from addr m) pools then 1%nat else 0%nat.
+Proof.
+  induction pools as [|p ps IH]; intros seen; simpl.
+  - rewrite andb_false_r. reflexivity.
+  - rewrite count_occ_app, IH, count_recips, memN_app.
+    destruct (memN x seen) eqn:Es; simpl.
+    + rewrite orb_true_r. reflexivity.
+    + destruct (wantsb own ev p x from addr m) eqn:Ew; simpl.
+      * assert (Hin : memN x (recips own ev p from addr m seen) = true).
+        { apply memN_In. apply (count_occ_In N.eq_dec). rewrite count_recips, Es, Ew. simpl. lia. }
+        rewrite Hin. reflexivity.
+      * assert (Hnin : memN x (recips own ev p from addr m seen) = false).
+        { apply memN_false. apply (count_occ_not_In N.eq_dec). rewrite count_recips, Es, Ew. reflexivity. }
+        rewrite Hnin. reflexivity.
+Qed.
+
+Lemma passes_owner own ev pools from addr m x : forall seen,
+  In x (passes own ev pools from addr m seen) -> exists p f, In p pools /\ In (x, f) p /\ fmatch own ev f from addr m = true.
+Proof.
+  induction pools as [|p ps IH]; intros seen; simpl; [tauto|].
+  intros H. apply in_app_or in H. destruct H as [H|H].
+  - apply recips_owner in H. destruct H as (f & H1 & H2). exists p, f. auto.
+  - destruct (IH _ H) as (q & f & H1 & H2 & H3). exists q, f. auto.
+Qed.
+
+Lemma opt_k_same_eq a b : opt_k_same a b = true <-> a = b.
+Proof. destruct a, b; simpl; try (split; congruence). rewrite ktype_eqb_eq. split; congruence. Qed.
+Lemma opt_N_same_eq a b : opt_N_same a b = true <-> a = b.
+Proof. destruct a, b; simpl; try (split; congruence). rewrite N.eqb_eq. split; congruence. Qed.
+
+Lemma pool_In rules t i r : In r (pool rules t i) <-> In r rules /\ f_type (snd r) = t /\ f_iface (snd r) = i.
+Proof. unfold pool, in_pool. rewrite filter_In, andb_true_iff, opt_k_same_eq, opt_N_same_eq. tauto. Qed.
+
+Definition the_pools (rules : list (cid * flt)) (m : bmsg) : list (list (cid * flt)) :=
+  let has_iface := negb (b_iface m =? 0) in
+  [pool rules None None;
+   if has_iface then pool rules None (Some (b_iface m)) else [];
+   match b_type m with TKnown k => pool rules (Some k) None | TOther _ => [] end;
+   match b_type m with TKnown k => if has_iface then pool rules (Some k) (Some (b_iface m)) else [] | TOther _ => [] end].
+
+Lemma get_recipients_passes own ev rules from addr m :
+  get_recipients own ev rules from addr m =
+  passes own ev (the_pools rules m) from addr m (match addr with Some a => [a] | None => [] end).
+Proof. reflexivity. Qed.
+
+Lemma the_pools_sub rules m p r : In p (the_pools rules m) -> In r p -> In r rules.
+Proof.
+  unfold the_pools. simpl. intros [<-|[<-|[<-|[<-|[]]]]] H.
+  - apply pool_In in H. tauto.
+  - destruct (negb (b_iface m =? 0)); [apply pool_In in H; tauto | destruct H].
+  - destruct (b_type m); [apply pool_In in H; tauto | destruct H].
+  - destruct (b_type m); [|destruct H]. destruct (negb (b_iface m =? 0)); [apply pool_In in H; tauto | destruct H].
+Qed.
+
+(* THE INDEX IS EXACT: every rule that can accept the message lives in one of the pools that are consulted, whatever the
+   type byte of the message (in particular for types the specification does not define) *)
+Theorem wantsb_pools own ev rules x from addr m :
+  existsb (fun p => wantsb own ev p x from addr m) (the_pools rules m) = wantsb own ev rules x from addr m.
+Proof.
+  destruct (wantsb own ev rules x from addr m) eqn:E.
+  - unfold wantsb in E. apply existsb_exists in E. destruct E as ([o f] & Hin & H). simpl in H.
+    apply andb_true_iff in H. destruct H as [Ho Hm].
+    assert (W : forall p, In (o, f) p -> wantsb own ev p x from addr m = true).
+    { intros p Hp. unfold wantsb. apply existsb_exists. exists (o, f). simpl. rewrite Ho, Hm. auto. }
+    pose proof Hm as Hm'. unfold fmatch in Hm'. rewrite !andb_true_iff in Hm'.
+    destruct Hm' as [[[[Ht Hi] _] _] _].
+    rewrite opt_type_ok_spec in Ht. rewrite opt_code_ok_spec in Hi.
+    apply existsb_exists. unfold the_pools.
+    destruct (f_type f) as [k|] eqn:Et; destruct (f_iface f) as [i|] eqn:Ei.
+    + (* both *)
+      specialize (Ht k eq_refl). destruct (Hi i eq_refl) as [Hi1 Hi2].
+      exists (pool rules (Some k) (Some i)). split.
+      * simpl. right; right; right; left. rewrite Ht, Hi1. assert (Z : (i =? 0) = false) by (apply N.eqb_neq; auto). rewrite Z. reflexivity.
+      * apply W. apply pool_In. simpl. auto.
+    + specialize (Ht k eq_refl). exists (pool rules (Some k) None). split.
+      * simpl. right; right; left. rewrite Ht. reflexivity.
+      * apply W. apply pool_In. simpl. auto.
+    + destruct (Hi i eq_refl) as [Hi1 Hi2].
+      exists (pool rules None (Some i)). split.
+      * simpl. right; left. rewrite Hi1. assert (Z : (i =? 0) = false) by (apply N.eqb_neq; auto). rewrite Z. reflexivity.
+      * apply W. apply pool_In. simpl. auto.
+    + exists (pool rules None None). split; [left; reflexivity|]. apply W. apply pool_In. simpl. auto.
+  - destruct (existsb (fun p => wantsb own ev p x from addr m) (the_pools rules m)) eqn:E2; auto.
+    apply existsb_exists in E2. destruct E2 as (p & Hp & H). unfold wantsb in H. apply existsb_exists in H.
+    destruct H as (r & Hr & H). assert (wantsb own ev rules x from addr m = true); [|congruence].
+    unfold wantsb. apply existsb_exists. exists r. split; auto. apply (the_pools_sub rules m p r Hp Hr).
+Qed.
+
 Lemma count_get_recipients own ev rules from addr m x :
   count_occ N.eq_dec (get_recipients own ev rules from addr m) x =
   if negb (match addr with Some a => a =? x | None => false end) && wantsb own ev rules x from addr m then 1%nat else 0%nat.
 Proof.
-  unfold get_recipients. rewrite count_recips. destruct addr as [a|]; simpl.
+  rewrite get_recipients_passes, count_passes, wantsb_pools. destruct addr as [a|]; simpl.
   - rewrite orb_false_r. rewrite (N.eqb_sym x a). reflexivity.
   - reflexivity.
+Qed.
+
+Lemma get_recipients_owner own ev rules from addr m x :
+  In x (get_recipients own ev rules from addr m) -> exists f, In (x, f) rules /\ fmatch own ev f from addr m = true.
+Proof.
+  rewrite get_recipients_passes. intros H. apply passes_owner in H. destruct H as (p & f & Hp & Hin & Hm).
+  exists f. split; auto. apply (the_pools_sub rules m p (x, f) Hp Hin).
 Qed.
 
 Lemma get_recipients_noeaves_dest own rules from addr m d :
   b_dest m = Some d -> get_recipients own false rules from addr m = [].
 Proof.
-  intros H. unfold get_recipients. generalize (match addr with Some a => [a] | None => [] end).
-  induction rules as [|[o f] rules IH]; intros seen; simpl; auto.
-  rewrite (fmatch_noeaves_dest _ _ _ _ _ _ H). simpl. apply IH.
+  intros H. destruct (get_recipients own false rules from addr m) as [|x l] eqn:E; auto.
+  assert (Hin : In x (get_recipients own false rules from addr m)) by (rewrite E; left; reflexivity).
+  apply get_recipients_owner in Hin. destruct Hin as (f & _ & Hm). rewrite (fmatch_noeaves_dest _ _ _ _ _ _ H) in Hm. discriminate.
 Qed.
 
 (* ---------------------------------------------------------------- counting *)
